@@ -47,7 +47,8 @@ def bindingJson (b : Binding) : Json :=
 def prOf (j : Json) : PR :=
   { name := str j "name", uid := str j "uid", paused := bool j "paused", deleted := bool j "deleted",
     family := str j "family",
-    org := if has j "org" then some (str (obj j "org") "reg", str (obj j "org") "org") else none,
+    -- the parser's answer (registry, repository); the organisation is computed by the model (firstSeg)
+    org := if has j "org" then some (Parsed.orgKey ⟨str (obj j "org") "reg", str (obj j "org") "repo"⟩) else none,
     refs := (arr j "refs").map fun r => ⟨str r "apiVersion", str r "kind", str r "name"⟩,
     requests := (arr j "requests").map pruleOf }
 
